@@ -118,7 +118,15 @@ class VdiSuite(ReaderSuite):
     def generate(self, rng, tier):
         n = 1500 if tier == "thorough" else 150
         from harness.readers import with_twins
-        return with_twins([gen_case(rng, tier) for _ in range(n)], rng)
+        def relaid(t):
+            alloc = [i for i, e in enumerate(t["map"]) if e >= 0]
+            if len(alloc) < 2:
+                return None
+            vals = [t["map"][i] for i in alloc]
+            for i, v in zip(alloc, vals[1:] + vals[:1]):
+                t["map"][i] = v
+            return t
+        return with_twins([gen_case(rng, tier) for _ in range(n)], rng, relaid=relaid)
 
     def _parent_case(self, case):
         bs = 4096
